@@ -188,7 +188,7 @@ pub fn run(prop: &str) {
     // C03 / C13 / C04 are also decided against a malicious peer / on-path attacker
     if prop == "C03" || prop == "C13" || prop == "C04" {
         let ak: u32 = std::env::var("VERIF_AK").ok().and_then(|v| v.parse().ok()).unwrap_or(if thorough { 5 } else if prop == "C04" { 2 } else { 3 });
-        let (st, vio, samples) = crate::attack::explore(prop, thorough, mc::budget(thorough, 40.0, 0.5), ak);
+        let (st, vio, samples) = crate::attack::explore(prop, thorough, mc::budget(thorough, 60.0, 0.5), ak);
         rep.set("attacker_worlds_states", st.states);
         rep.set("attacker_worlds_executions", st.executions);
         rep.set("attacker_move_bound", ak as u64);
